@@ -148,7 +148,7 @@ func (c treeCase) materialise(w *worker, base string) {
 		must(os.Mkdir(filepath.Join(base, d), 0755))
 	}
 	for p, e := range m.files {
-		must(os.WriteFile(filepath.Join(base, p), []byte(e.Content), os.FileMode(e.Perm)))
+		must(rawWrite(filepath.Join(base, p), e.Content, e.Perm))
 	}
 }
 
@@ -176,8 +176,7 @@ func snapshotTree(base string) (map[string]ent, []string) {
 		case fi.IsDir():
 			dirs = append(dirs, rel)
 		case fi.Mode().IsRegular():
-			b, _ := os.ReadFile(p)
-			files[rel] = ent{Kind: "reg", Content: string(b), Perm: uint32(fi.Mode().Perm())}
+			files[rel] = ent{Kind: "reg", Content: rawRead(p), Perm: uint32(fi.Mode().Perm())}
 		case fi.Mode()&os.ModeSymlink != 0:
 			t, _ := os.Readlink(p)
 			files[rel] = ent{Kind: "sym", Target: t}
@@ -393,7 +392,7 @@ func judgeTree(x treeExpect, o treeObs) string {
 
 // The order in which EnsureTreeState walks its sub-directory map cannot be driven from outside; every
 // faulty case is therefore repeated (the runtime picks one of the rotations of the map's insertion order).
-func treeFaultRepeats(r *eng.Run) int { return r.Pick(3, 12) }
+func treeFaultRepeats(r *eng.Run) int { return r.Pick(2, 12) }
 
 func runTreePart(r *eng.Run, rp *reporter, base string) stats {
 	var cases []treeCase
